@@ -4,9 +4,9 @@
 package simredis
 
 import (
-	"os"
 	"bytes"
 	"fmt"
+	"os"
 	"sort"
 	"strconv"
 	"strings"
@@ -112,6 +112,10 @@ type Server struct {
 	// Immediate: every complete request is executed the moment the client has written it, in the client's goroutine
 	// (zero latency; for auxiliary nodes such as the source shard runCluster asks for its role). Set before Listen.
 	Immediate bool
+	// RefuseWrites: "" | "OOM" | "READONLY" - a store that stays up and refuses writes, at top level and inside scripts
+	// (redis.call raises, redis.pcall returns the error table): out of memory (commands that may grow the data set are
+	// refused; deletions, expiry changes and reads are served) or demoted to a read-only replica (every write refused).
+	RefuseWrites string
 	// Intercept may answer a request instead of the double (fault injection / cluster redirects).
 	Intercept func(s *Session, name string, args [][]byte) *resp.Value
 	// OnExec observers (invariant checkers).
@@ -436,11 +440,34 @@ func (s *Server) logExec(ss *Session, name string, args [][]byte, txn int, v res
 	}
 }
 
+// refusal: the error a store in RefuseWrites mode answers this command with (nil: it is served).
+func (s *Server) refusal(name string) *resp.Value {
+	if s.RefuseWrites == "" || isReadOnly(name) || isControl(name) {
+		return nil
+	}
+	switch name {
+	case "eval", "evalsha", "script", "ping", "info", "select", "multi", "exec", "discard", "get", "exists", "ttl", "pttl", "keys", "hget", "hgetall", "command", "cluster", "asking", "function", "echo", "type":
+		return nil
+	}
+	if s.RefuseWrites == "READONLY" {
+		v := resp.Err("READONLY You can't write against a read only replica.")
+		return &v
+	}
+	switch name {
+	case "del", "unlink", "expire", "pexpire", "expireat", "pexpireat", "persist", "hdel", "srem", "zrem", "lpop", "rpop", "ltrim", "zremrangebyscore", "lrem", "flushdb", "flushall":
+		return nil // not "denyoom": they do not grow the data set
+	}
+	v := resp.Err("OOM command not allowed when used memory > 'maxmemory'.")
+	return &v
+}
+
 func (s *Server) execute(ss *Session, name string, args [][]byte, txn int) resp.Value {
 	dbBefore := ss.DB
 	var v resp.Value
 	h, known := commands[name]
 	switch {
+	case s.refusal(name) != nil:
+		v = *s.refusal(name)
 	case s.Lenient && !isControl(name) && !(len(args) > 0 && IsReservedKey(args[0])) && !reservedEval(name, args):
 		v = resp.OK()
 		if s.LenientTrack {
